@@ -72,23 +72,29 @@ NA_FIXED = {
 }
 
 CLAIMED["C12"] = dict(
-  technique="TLA+ model of the Simulation caches with provenance "
-            "(SimCache.tla) checked by TLC + replay of TLC-generated "
+  technique="TLA+ models of the Simulation caches with provenance "
+            "(SimCache.tla) and of the computational-grid caches "
+            "(GridCache.tla) checked by TLC + replay of TLC-generated "
             "behaviours (graph edge cover and simulation) on real "
             "emg3d.Simulation objects with projection and fresh-simulation "
             "comparison after every step",
   text="TLC checks FreshResults, CachesCoherent, CopyIndependent and "
        "TolRestored for all histories (<=6 operations quick; the complete "
-       "abstract graph thorough) of the C12 alphabet over two simulation "
-       "objects, in-memory and file-based.  Behaviours enumerated by TLC are "
-       "replayed on real simulations (2 survey/model variants, electric, "
-       "magnetic and relative receivers, NaN data): every returned value is "
-       "compared with a fresh simulation's value for the provenance the "
-       "spec predicts and the projected object state with the spec state, "
-       "so a dropped cache reset or a stale cache is a mismatch.",
-  note="Trusted: TLC, the projection in harness/simreplay.py (reads private "
-       "attributes named in the property's anchors), gridding='same'.  "
-       "Known finding: shared file_dir of copies in file mode.",
+       "abstract graph thorough) of the C12 alphabet (incl. "
+       "compute(observed=True)) over two simulation objects, in-memory, "
+       "file-based and layered; provenance = (model, observed data).  "
+       "GridCache: FreshGrid, NeverFails, CachesCoherent, Sharing on the "
+       "complete graph of all seven gridding modes.  Behaviours enumerated "
+       "by TLC are replayed on real simulations (6 survey/model/option "
+       "variants incl. provided grids and layered mode; electric, magnetic "
+       "and relative receivers, NaN data): every returned value is compared "
+       "with a fresh simulation's value for the provenance the spec predicts "
+       "and the projected object state with the spec state, so a dropped "
+       "cache reset or a stale cache is a mismatch.",
+  note="Trusted: TLC, the projections in harness/simreplay.py and "
+       "harness/gridreplay.py (read private attributes named in the "
+       "property's anchors).  Known finding: shared file_dir of copies in "
+       "file mode.",
   ref="DESIGN.md section 5 (C12)", engine="tlc-simcache")
 
 CLAIMED["C11"] = dict(
